@@ -93,7 +93,7 @@ func (s *Store) p2AddLeaves(base, t *Term, depth int) *Term {
 
 func init() {
 	extraNatives = append(extraNatives, func(e *Engine) {
-		if !optPathsTime {
+		if !optPathsTime2 {
 			return
 		}
 		n := e.natives
